@@ -106,6 +106,7 @@ def null_dataframe_masks(
     draw,
     strategy: Optional[SearchStrategy],
     nullable_columns: Dict[str, bool],
+    unique_columns: Optional[Dict[str, bool]] = None,
 ):
     """Strategy for masking a values in a pandas DataFrame.
 
@@ -113,6 +114,10 @@ def null_dataframe_masks(
         pandas dtype strategy will be chained onto this strategy.
     :param nullable_columns: dictionary where keys are column names and
         values indicate whether that column is nullable.
+    :param unique_columns: dictionary where keys are column names and
+        values indicate whether the values of that column have to be unique.
+        Null values are duplicates of each other, so at most one value of
+        such a column is masked.
     """
     val = draw(strategy)
     size = val.shape[0]
@@ -133,7 +138,14 @@ def null_dataframe_masks(
     )
     null_mask = draw(mask_st)
     for column in val:
-        val[column] = _mask(val[column], null_mask[column])
+        column_mask = null_mask[column]
+        if unique_columns and unique_columns.get(column) and column_mask.any():
+            first_null = column_mask.to_numpy().argmax()
+            column_mask = pd.Series(
+                [i == first_null for i in range(size)],
+                index=column_mask.index,
+            )
+        val[column] = _mask(val[column], column_mask)
     return val
 
 
@@ -1141,6 +1153,10 @@ def dataframe_strategy(
             col_name: col.nullable
             for col_name, col in expanded_columns.items()
         }
+        unique_columns = {
+            col_name: bool(col.unique)
+            for col_name, col in expanded_columns.items()
+        }
 
         row_strategy = None
         if row_strategy_checks:
@@ -1184,7 +1200,9 @@ def dataframe_strategy(
         strategy = strategy.map(partial(convert_dtypes, col_dtypes=col_dtypes))
 
         if size is not None and size > 0 and any(nullable_columns.values()):
-            strategy = null_dataframe_masks(strategy, nullable_columns)
+            strategy = null_dataframe_masks(
+                strategy, nullable_columns, unique_columns
+            )
 
         if index is not None:
             strategy = set_pandas_index(strategy, index)
